@@ -32,12 +32,15 @@ void h_repeat_each(void){
 }
 
 #if DIM >= 2
-static void in_axes2(i32* ax, u64* n){ for (int i = 0; i < 2; i++){ ax[i] = in_i32(-DIM, DIM - 1); n[i] = norm_axis(ax[i], DIM); } ASSUME(n[0] != n[1]); }
-/* np.roll(a, (s0,s1) | s, (a0,a1)): two distinct axes in [-DIM, DIM), shifts in [-2n, 2n] */
+static void in_axes2(i32* ax, u64* n, int distinct){ for (int i = 0; i < 2; i++){ ax[i] = in_i32(-DIM, DIM - 1); n[i] = norm_axis(ax[i], DIM); } ASSUME(!distinct || n[0] != n[1]); }
+/* np.roll(a, (s0,s1) | s, (a0,a1)): two axes in [-DIM, DIM) (a repeated axis accumulates its shifts), shifts in [-2n, 2n] */
 static void roll_axes(int scalar){
   u64 shape[4] = {1,1,1,1}, idx[4], os[4] = {0}, od = 0, src[4] = {0,0,0,0}, n[2]; u32 data[CELLS], sh[2], axs[2], out = 0; i32 ax[2], s[2];
   in_shape(shape, DIM); in_data(data, NCELL);
-  in_axes2(ax, n);
+  in_axes2(ax, n, 0);
+#ifdef KF_C04_ROLL_REPEATED_AXIS
+  ASSUME(!(n[0] == n[1]));   /* finding: on a repeated axis the last shift wins instead of the sum */
+#endif
   for (int i = 0; i < 2; i++){ s[i] = in_i32(-2*MAXE, 2*MAXE); }
   if (scalar) s[1] = s[0];
   for (int i = 0; i < 2; i++){ ASSUME(s[i] >= -2*(i32)shape[n[i]] && s[i] <= 2*(i32)shape[n[i]]); sh[i] = (u32)s[i]; axs[i] = (u32)ax[i]; }
@@ -49,7 +52,7 @@ static void roll_axes(int scalar){
   ASSERT(r == 1, "roll accepted");
   ASSERT(od == DIM, "dim kept");
   for (u64 k = 0; k < DIM; k++){ ASSERT(os[k] == shape[k], "shape kept"); src[k] = idx[k]; }
-  for (int i = 0; i < 2; i++) src[n[i]] = (u64)pymod((i64)idx[n[i]] - s[i], (i64)shape[n[i]]);
+  for (int i = 0; i < 2; i++) src[n[i]] = (u64)pymod((i64)src[n[i]] - s[i], (i64)shape[n[i]]);   /* shifts on a repeated axis accumulate */
   ASSERT(out == data[horner(src, shape, DIM)], "result[i] == a[(i - shift_k) mod n_k] along every listed axis");
   OBS(out);
   REACHED();
@@ -61,7 +64,7 @@ void h_roll_axes_scalar(void){ roll_axes(1); }
 void h_sliding_axes(void){
   u64 shape[4] = {1,1,1,1}, win[2], idx[6], os[8] = {0}, od = 0, ex[6] = {0}, src[4] = {0,0,0,0}, n[2]; u32 data[CELLS], axs[2], out = 0; i32 ax[2];
   in_shape(shape, DIM); in_data(data, NCELL);
-  in_axes2(ax, n);
+  in_axes2(ax, n, 1);
   for (int i = 0; i < 2; i++){ win[i] = in_u64(1, MAXE); ASSUME(win[i] <= shape[n[i]]); axs[i] = (u32)ax[i]; }
   for (u64 k = 0; k < DIM; k++) ex[k] = shape[k];
   for (int i = 0; i < 2; i++){ ex[n[i]] -= win[i] - 1; ex[DIM + i] = win[i]; }
@@ -81,7 +84,7 @@ void h_sliding_axes(void){
 static void expand_axes(int scalar){
   u64 shape[4] = {1,1,1,1}, sp[2], idx[4], os[4] = {0}, od = 0, ex[4] = {0}, src[4] = {0,0,0,0}, n[2]; u32 data[CELLS], axs[2], out = 0; i32 ax[2];
   in_shape(shape, DIM); in_data(data, NCELL);
-  in_axes2(ax, n);
+  in_axes2(ax, n, 1);
   for (int i = 0; i < 2; i++){ sp[i] = in_u64(0, MAXS); axs[i] = (u32)ax[i]; }
   if (scalar) sp[1] = sp[0];
   u32 fill = in_any32();
